@@ -112,6 +112,8 @@ C18Dt6 == {TypedLit("1", "d:a"), TypedLit("1", "d:b"), TypedLit("1", "d:c"), Typ
 
 \* small refusal slices for the state-graph comparison (every reachable state x every call, refusals included)
 C18IriS == Iris({"a/", "b#", ""}, {"x"}) \cup {<<"iri", "a/", "y">>}
+C18IriQ == Iris({"a/", "b#"}, {"x"})
+C18IriG3 == Iris({"a/", "b#", "c/"}, {"x"}) \cup {DG}
 C18DtS == {TypedLit("1", "d:a"), TypedLit("1", "d:b"), TypedLit("2", "d:a"), Bn("b1")}
 
 NsSmall == {<<"ex", "a/", "">>, <<"", "b#", "">>, <<"n", "", "x">>}
